@@ -120,6 +120,18 @@ def sym_datetime_us(c, tag, whole_seconds=True):
     c.notes.setdefault("floor_div", {})[(v.get_id(), 86400 * 10**6)] = day        # floor(v / one day) for a non-NaT v
     return v, day
 
+def iso_text(ticks, unit):
+    """str(datetime) / str(date): the ISO text of the value, which loses nothing.  A plain str (so that type inference in the
+    code under test sees a string) with a private-use marker; the ticks it stands for are kept in the path's notes"""
+    c = symx.ctx()
+    reg = c.notes.setdefault("iso", {})
+    text = f"\ue100iso{len(reg)}\ue101"
+    reg[text] = (ticks, unit)
+    return text
+
+def iso_lookup(text):
+    return symx.ctx().notes.get("iso", {}).get(text) if symx.CTX is not None else None
+
 class StrfToken(str):
     """text produced by strftime: an opaque string remembering (ticks term, unit, format)"""
     def __new__(cls, ticks, unit, fmt):
@@ -151,6 +163,8 @@ class SymPyDate:
         return SymPyDate(uf_bv("replace", [self.ticks] + vals, self.unit, names), self.unit)
     def strftime(self, fmt):
         return StrfToken(self.ticks, self.unit, fmt)
+    def __str__(self):
+        return iso_text(self.ticks, self.unit)
     def __hash__(self): return 0
     def __eq__(self, o):
         if isinstance(o, SymPyDate) and o.unit == self.unit: return symx.SymBool(self.ticks == o.ticks)
